@@ -375,6 +375,7 @@ static void prop(vp::Src& s) {
     std::string history = "cap=" + std::to_string(cap) + " mode=" + std::to_string(t.mode);
     bool moved_with_builder_open = false;
     bool purge_with_move = false;
+    bool purge_pending_seen = false;
     size_t steps = 1 + s.draw(40);
     for (size_t step = 0; step < steps; ++step) {
         int cmd = static_cast<int>(s.weighted({10, 6, 2, 1, 2, 2, 1, 1, 3, 2, 1, 2, 1}));
@@ -515,7 +516,11 @@ static void prop(vp::Src& s) {
                 break;
             }
             case 9: {  // purge
-                if (!t.pending.empty()) {
+                // Mostly on a fully committed buffer (what the library's own callers do). With uncommitted items behind the committed
+                // ones the documentation promises nothing in particular for them; whatever the library does, the buffer must afterwards
+                // hold the kept items followed by either none or all of the uncommitted items, never bytes that were not passed in.
+                const bool purge_with_pending = !t.pending.empty() && s.chance(1, 3);
+                if (!t.pending.empty() && !purge_with_pending) {
                     t.buf.commit();
                     for (auto& o : t.pending) t.committed.push_back(MItem{o, false});
                     t.pending.clear();
@@ -547,6 +552,18 @@ static void prop(vp::Src& s) {
                 for (size_t i = t.archived.size(); i < t.committed.size(); ++i)
                     if (!t.committed[i].removed) kept.push_back(t.committed[i]);
                 t.committed = kept;
+                if (purge_with_pending) {
+                    name += " with " + std::to_string(t.pending.size()) + " uncommitted items";
+                    VP_CHECK(t.buf.committed() == wpos, "purge-size", "after purge committed=" << t.buf.committed() << " expected " << wpos);
+                    if (t.buf.written() == t.buf.committed()) {
+                        t.pending.clear();  // dropped, like a rollback
+                        vp::count("purge_dropped_uncommitted_items");
+                    } else {
+                        vp::count("purge_kept_uncommitted_items");  // must be exactly the model's pending items: compared by the step check
+                    }
+                    purge_pending_seen = true;
+                    break;
+                }
                 VP_CHECK(t.buf.committed() == wpos && t.buf.written() == wpos, "purge-size", "after purge committed=" << t.buf.committed() << " expected " << wpos);
                 break;
             }
@@ -591,6 +608,7 @@ static void prop(vp::Src& s) {
         vp::count("history_with_growth_while_builder_open");
     }
     if (purge_with_move) vp::count("history_with_purge_moves");
+    if (purge_pending_seen) vp::count("history_with_purge_over_uncommitted_items");
     vp::count(std::string{"mode_"} + (t.mode == 0 ? "no" : t.mode == 1 ? "yes" : "internal"));
 }
 
@@ -622,6 +640,6 @@ VP_BUILTIN(F08_discussion_builder_growth) {
 }
 
 VP_MAIN(prop, "generated operation histories (1..40 steps) on a Buffer of capacity 64..4096 and growth mode no/yes/internal: build node/way/relation(with full members)/area/changeset(with "
-              "discussion) through every builder overload, commit, rollback, clear, add_buffer, push_back, add_item, swap, move, set_removed, purge_removed with/without callback, grow; "
+              "discussion) through every builder overload, commit, rollback, clear, add_buffer, push_back, add_item, swap, move, set_removed, purge_removed with/without callback (1/3 of them with uncommitted items behind the committed ones), grow; "
               "after every step the independent layout walker decodes committed and uncommitted area (plus nested buffers) and must equal the model; ASan + assertions. "
               "non-trivial = history in which the buffer memory moved or grew while a builder was open; distinct by hash of the history text")
